@@ -421,6 +421,13 @@ def facts_at(cfg: CFG, node: Node, *, expand_locals: bool = True, labels_exclude
                     from .inline import implied_facts
                     for a in implied_facts(mod, call, cpos, cls, _depth):
                         out.add(a)
+    # an `assert cond` that every normal path to the node executes is a guard too (the failing side raises)
+    lx = tuple(labels_excluded) or ("exc", "cancel")
+    for a_node in cfg.nodes:
+        if isinstance(a_node.ast, ast.Assert) and a_node is not node and a_node.kind != "test":
+            if node in cfg.reach([cfg.entry], labels_excluded=lx) and node not in cfg.reach([cfg.entry], blocked=[a_node], labels_excluded=lx):
+                for variant in ([a_node.ast.test, expand(a_node.ast.test, a_node.ast)] if expand_locals else [a_node.ast.test]):
+                    out.update(atoms(variant, True))
     return out
 
 
